@@ -171,6 +171,8 @@ class Live(JupyterMixin, RenderHook):
 
             if self.transient:
                 self.console.control(self._live_render.restore_cursor())
+            # the frame is no longer live: a later start() must not erase it (or the lines printed since)
+            self._live_render._shape = None
             if self.ipy_widget is not None:  # pragma: no cover
                 if self.transient:
                     self.ipy_widget.close()
